@@ -6,3 +6,5 @@ package js_printer
 import "github.com/evanw/esbuild/internal/ast"
 
 func verifSymbolTag(symbols ast.SymbolMap, ref ast.Ref) string { return "" }
+
+func (p *printer) verifTag(ref ast.Ref) {}
